@@ -20,6 +20,9 @@ enum Act {
     Nest2 { id: u32 },
     /// read, flip, read, restore, read — all in one function
     Probe3,
+    /// a critical section over memory shared with the interrupt handler: unlocked peek, locked
+    /// take inside without_interrupts, all in one function (plain loads and stores)
+    Shared(Option<(u8, u64)>),
     Enable,
     Disable,
     AreEnabled,
@@ -37,6 +40,7 @@ fn parse(v: &Value) -> Act {
         "pair" => Act::Pair,
         "nest2" => Act::Nest2 { id: v["id"].as_u64().unwrap_or(0) as u32 },
         "probe3" => Act::Probe3,
+        "shared" => Act::Shared(v["vector"].as_u64().map(|x| (x as u8, v["after"].as_u64().unwrap_or(1)))),
         "enable" => Act::Enable,
         "disable" => Act::Disable,
         "are_enabled" => Act::AreEnabled,
@@ -51,7 +55,7 @@ fn gen_body(rng: &mut Rng, depth: u32, next_id: &mut u32, top: bool) -> Vec<Valu
     let n = if top { rng.range(1, 6) } else { rng.below(4) };
     let mut out = vec![];
     for _ in 0..n {
-        let k = if top { rng.weighted(&[6, 0, 2, 2, 2, 3, 3, 2, 1, 2, 2]) } else { rng.weighted(&[4, 3, 0, 0, 2, 0, 3, 2, 2, 2, 2]) };
+        let k = if top { rng.weighted(&[6, 0, 2, 2, 2, 3, 3, 2, 1, 2, 2, 3]) } else { rng.weighted(&[4, 3, 0, 0, 2, 0, 3, 2, 2, 2, 2, 0]) };
         out.push(match k {
             0 if depth < 6 => {
                 let id = *next_id;
@@ -72,6 +76,14 @@ fn gen_body(rng: &mut Rng, depth: u32, next_id: &mut u32, top: bool) -> Vec<Valu
                 json!({"op": "nest2", "id": id})
             }
             10 => json!({"op": "probe3"}),
+            11 => {
+                // usually with an interrupt that arrives right after the flag has been read
+                if rng.chance(70) {
+                    json!({"op": "shared", "vector": rng.range(32, 255), "after": rng.range(1, 2)})
+                } else {
+                    json!({"op": "shared"})
+                }
+            }
             _ => json!({"op": "work", "n": rng.range(1, 5)}),
         });
     }
@@ -134,6 +146,20 @@ fn work(n: u32) -> u32 {
 struct Obs {
     are_enabled: Vec<bool>,
     rets_ok: bool,
+    /// (unlocked peek, value taken inside the critical section)
+    shared: Vec<(u64, u64)>,
+}
+
+/// memory shared between the code under test and the simulated interrupt handler
+static mut SHARED_Q: u64 = 0;
+static mut SHARED_D: u64 = 0;
+
+fn isr(_vector: u8) {
+    // the interrupt handler produces work: visible to the interrupted code as a plain memory change
+    unsafe {
+        let q = core::ptr::read_volatile(&raw const SHARED_Q);
+        core::ptr::write_volatile(&raw mut SHARED_Q, q + 100);
+    }
 }
 
 fn exec(acts: &[Act], obs: &mut Obs) {
@@ -193,6 +219,24 @@ fn exec(acts: &[Act], obs: &mut Obs) {
                 let c = interrupts::are_enabled();
                 obs.are_enabled.extend_from_slice(&[a, b, c]);
             }
+            Act::Shared(arrive) => unsafe {
+                if let Some((v, after)) = arrive {
+                    let c = &mut world().cpu;
+                    hold(c, true);
+                    c.irq_pending.push((c.boundary + after, *v));
+                    hold(c, false);
+                }
+                // plain (non-volatile) accesses on purpose: only the asm blocks of cli/sti keep the
+                // compiler from moving them out of the critical section
+                let peek = SHARED_Q;
+                let got = interrupts::without_interrupts(|| {
+                    let v = SHARED_Q;
+                    SHARED_D = v;
+                    v
+                });
+                SHARED_D = 0;
+                obs.shared.push((peek, got));
+            },
             Act::Enable => interrupts::enable(),
             Act::Disable => interrupts::disable(),
             Act::AreEnabled => obs.are_enabled.push(interrupts::are_enabled()),
@@ -261,6 +305,7 @@ impl Model {
                     let f = self.iflag;
                     self.are_enabled.extend_from_slice(&[f, !f, f]);
                 }
+                Act::Shared(_) => {}
                 Act::Enable => {
                     self.seq.push(Ev::Sti);
                     self.iflag = true;
@@ -285,7 +330,7 @@ impl Model {
 }
 
 fn has_wi(acts: &[Act]) -> bool {
-    acts.iter().any(|a| matches!(a, Act::Wi { .. } | Act::Pair | Act::AreEnabled | Act::Nest2 { .. } | Act::Probe3))
+    acts.iter().any(|a| matches!(a, Act::Wi { .. } | Act::Pair | Act::AreEnabled | Act::Nest2 { .. } | Act::Probe3 | Act::Shared(_)))
 }
 
 pub fn run(rp: &Replay, st: &mut Stats) -> Option<Violation> {
@@ -297,6 +342,11 @@ pub fn run(rp: &Replay, st: &mut Stats) -> Option<Violation> {
     let w = world();
     w.cpu = Cpu::default();
     w.cpu.iflag = init_if;
+    w.cpu.isr_hook = Some(isr);
+    unsafe {
+        core::ptr::write_volatile(&raw mut SHARED_Q, 7);
+        core::ptr::write_volatile(&raw mut SHARED_D, 0);
+    }
     w.cpu.rflags_sys = rp.config["rflags_sys"].as_u64().unwrap_or(0);
     w.cpu.trace.reserve(4096);
     w.mon_budget = 150_000;
@@ -309,7 +359,8 @@ pub fn run(rp: &Replay, st: &mut Stats) -> Option<Violation> {
         let if_before = world().cpu.iflag;
         let sys_before = world().cpu.rflags_sys;
         let pending_before = !world().cpu.irq_pending.is_empty();
-        let mut obs = Obs { are_enabled: vec![], rets_ok: true };
+        let mut obs = Obs { are_enabled: vec![], rets_ok: true, shared: vec![] };
+        let q0 = unsafe { core::ptr::read_volatile(&raw const SHARED_Q) };
         let r = sut_call("c17", || {
             if use_monitor {
                 monitor(|| exec(one, &mut obs))
@@ -370,6 +421,22 @@ pub fn run(rp: &Replay, st: &mut Stats) -> Option<Violation> {
                 return Some(viol(&["C17"], "enable-disable", i, format!("expected exactly {want:?}, executed {trace:?}")));
             }
         }
+        // 3b. the value taken inside the critical section is the one the memory held once
+        //     interrupts were off: every handler run before the cli (or before the closure, when
+        //     the flag was already clear) is visible to it
+        if let Act::Shared(_) = a {
+            let stop = trace.iter().position(|e| matches!(e, Ev::Cli)).unwrap_or(trace.len());
+            let before = trace[..stop].iter().filter(|e| matches!(e, Ev::Deliver { .. })).count() as u64;
+            let want = q0 + 100 * before;
+            if let Some((peek, got)) = obs.shared.first() {
+                if *got != want {
+                    return Some(viol(&["C17"], "critical-section-stale-read", i, format!("{before} interrupt handler run(s) changed the shared word from {q0} to {want} before interrupts were disabled, but the closure read {got} inside the critical section (unlocked peek before: {peek}); trace {trace:?}")));
+                }
+                if before > 0 && peek != got {
+                    st.count("handler_between_peek_and_cli");
+                }
+            }
+        }
         // 4. enable_and_hlt: no window between sti and hlt, no lost wake-up
         if let Act::EnableAndHlt = a {
             let core: Vec<&Ev> = trace.iter().filter(|e| !matches!(e, Ev::Mark(_))).collect();
@@ -413,6 +480,7 @@ pub fn run(rp: &Replay, st: &mut Stats) -> Option<Violation> {
             Act::Pair => 1,
             Act::Nest2 { .. } => 9,
             Act::Probe3 => 10,
+            Act::Shared(_) => 11,
             Act::Enable => 2,
             Act::Disable => 3,
             Act::AreEnabled => 4,
